@@ -28,7 +28,7 @@ WIDE = ("datasetRule", "dataTableRule", "otherEntityRule", "physicalRule", "attr
 def bounds(tier):
     if tier == "quick":
         return {"failfast": 5, "collecting": 4, "wide_failfast": 5, "wide_collecting": 3}
-    return {"failfast": 8, "collecting": 6, "wide_failfast": 6, "wide_collecting": 4}
+    return {"failfast": 10, "collecting": 7, "wide_failfast": 7, "wide_collecting": 5}
 
 
 def _native_outcome(rule_name, seq, collecting, warmup=()):
